@@ -18,7 +18,21 @@ def programs_for(tier, seed, pred=None, extra=(), full=False):
     return ps
 
 
+def prove_summaries(rep, tier="quick"):
+    """The per-definition runs use BitBuffer.read/write/flush/reset and LEB128._read/_write through their contracts:
+    discharge those contracts against the real method bodies in the same run (a change inside one of these callees is
+    visible only here)."""
+    if getattr(rep, "_summaries_proved", False):
+        return
+    rep._summaries_proved = True
+    from contracts import bitbuffer
+
+    specs = bitbuffer.t1_specs(tier) + [("contracts.leaf", "make_leb", (sg, op)) for sg in (False, True) for op in ("read", "write")]
+    rep.add_case_results(run_cases(specs), "T1")
+
+
 def run_pipeline(rep, progs, props, modes=(False, True)):
+    prove_summaries(rep, rep.tier)
     specs = [("t2.cases", "make_pipe", (p.to_json(), c, list(props))) for p in progs for c in modes]
     res = run_cases(specs)
     rep.add_case_results(res, "T2")
